@@ -336,6 +336,197 @@ def eq (m₁ m₂ : Mem) : Bool :=
     | _, _ => false
   else false
 
+/-! ### the same memory for `V = il::Expression` (`impl Value for il::Expression`, lib/memory/value.rs)
+
+  The operations build expression trees through the sort-checking constructors and never evaluate;
+  `paged.rs` is generic in `V`, so every function below is the text of its `Constant` counterpart with
+  the five `Value` operations replaced.  (Kept as a second copy rather than a type class so that the
+  `Constant` model, which the C08 theorems unfold, stays first-order.) -/
+
+/-- `Value::shl` for `il::Expression`: `Expression::shl(self, expr_const(bits as u64, self.bits()))` -/
+def eshl (e : Expr) (n : Nat) : Res Expr := Expr.mkBin .shl e (Expr.ec n e.bits)
+def eshr (e : Expr) (n : Nat) : Res Expr := Expr.mkBin .shr e (Expr.ec n e.bits)
+def etrun (e : Expr) (n : Nat) : Res Expr := Expr.mkExt .trun n e
+def ezext (e : Expr) (n : Nat) : Res Expr := Expr.mkExt .zext n e
+def eor (a b : Expr) : Res Expr := Expr.mkBin .or a b
+
+inductive CellE where
+  | value (v : Expr)
+  | backref (a : Nat)
+  deriving DecidableEq, Repr, Inhabited
+
+structure MemE where
+  endian : Endian
+  backing : Option Backing
+  pages : AList (Option Nat)
+  cells : AList CellE
+  deriving Repr, Inhabited
+
+def newE (e : Endian) : MemE := ⟨e, none, [], []⟩
+def newWithBackingE (e : Endian) (b : Backing) : MemE := ⟨e, some b, [], []⟩
+
+def loadCellE (m : MemE) (a : Nat) : Option CellE := AList.get m.cells a
+
+def storeCellE (m : MemE) (a : Nat) (c : CellE) : MemE :=
+  { m with
+    cells := AList.set m.cells a c
+    pages := match AList.get m.pages (pageOf a) with
+      | some _ => m.pages
+      | none => AList.set m.pages (pageOf a) none }
+
+def backingGet8E (m : MemE) (a : Nat) : Option UInt8 :=
+  match m.backing with
+  | some b => b.get8 a
+  | none => none
+
+/-- `load_backing`: `V::constant(il::const_(v as u64, 8))` = `Expression::constant(..)` -/
+def loadBackingE (m : MemE) (a : Nat) : Option Expr :=
+  (backingGet8E m a).map (fun x => Expr.const (Const.new x.toNat 8))
+
+def storeBackrefsE (m : MemE) (a : Nat) : Nat → Nat → MemE
+  | _, 0 => m
+  | i, k + 1 => storeBackrefsE (storeCellE m (a + i) (.backref a)) a (i + 1) k
+
+def storeNoBackrefE (m : MemE) (a : Nat) (v : Expr) : MemE :=
+  storeBackrefsE (storeCellE m a (.value v)) a 1 (v.bits / 8 - 1)
+
+def loadFirstE (m : MemE) (a bits : Nat) : Res (Option Expr) :=
+  match loadCellE m a with
+  | some (.value v) =>
+    if v.bits ≤ bits then .ok (some v)
+    else
+      match m.endian with
+      | .little => do let r ← etrun v bits; pure (some r)
+      | .big => do
+          let sh ← csub v.bits bits
+          let s ← eshr v sh
+          let r ← etrun s bits
+          pure (some r)
+  | some (.backref b) =>
+    match loadCellE m b with
+    | none => .err .other
+    | some (.backref _) => .err .other
+    | some (.value v) => do
+      let d ← csub a b
+      let off ← cmul d 8
+      let v' ← match m.endian with
+        | .little => do
+            let trunBits ← csub v.bits off
+            let s ← eshr v off
+            etrun s trunBits
+        | .big => do
+            let sum ← cadd bits off
+            let shift ← if sum ≥ v.bits then pure 0 else do
+              let x ← csub v.bits bits
+              csub x off
+            let x ← csub v.bits off
+            let trunBits ← csub x shift
+            let s ← eshr v shift
+            etrun s trunBits
+      if v'.bits > bits then do let r ← etrun v' bits; pure (some r)
+      else pure (some v')
+  | none => .ok (loadBackingE m a)
+
+def load8E (m : MemE) (a : Nat) : Res (Option Expr) := do
+  match ← loadFirstE m a 8 with
+  | none => pure none
+  | some lv => if lv.bits = 8 then pure (some lv) else .panic
+
+def byteLoopE (m : MemE) (a bits bytes : Nat) : Nat → Nat → Option Expr → Res (Option Expr)
+  | 0, _, result => .ok result
+  | k + 1, off, result => do
+      let addr ← cadd a off
+      let l ← load8E m addr
+      let l := match l with
+        | some v => some v
+        | none => loadBackingE m addr
+      match l with
+      | none => .ok none
+      | some v => do
+        let z ← ezext v bits
+        let s ← eshl z (shiftOf m.endian bytes off)
+        let r ← match result with
+          | some r => eor r s
+          | none => pure s
+        byteLoopE m a bits bytes k (off + 1) (some r)
+
+/-- `Memory::<il::Expression>::load` -/
+def loadE (m : MemE) (a bits : Nat) : Res (Option Expr) :=
+  if bits % 8 ≠ 0 then .err .other
+  else if bits = 0 then .err .other
+  else do
+    match ← loadFirstE m a bits with
+    | none => pure none
+    | some lv =>
+      if lv.bits = bits then pure (some lv)
+      else byteLoopE m a bits (bits / 8) (bits / 8) 0 none
+
+def storeTailE (m : MemE) (aaw : Nat) : Res (Option (Nat × Expr)) :=
+  match loadCellE m aaw with
+  | some (.backref b) =>
+    match loadCellE m b with
+    | none => .err .other
+    | some (.backref _) => .err .other
+    | some (.value bv) => do
+      let d ← csub aaw b
+      let used ← cmul d 8
+      let left ← csub bv.bits used
+      match ← loadE m aaw left with
+      | some t => pure (some (aaw, t))
+      | none => pure none
+  | _ => .ok none
+
+def storeHeadE (m : MemE) (a : Nat) : Res (Option (Nat × Expr)) :=
+  match loadCellE m a with
+  | some (.backref b) => do
+      let d ← csub a b
+      let left ← cmul d 8
+      match ← loadE m b left with
+      | some h => pure (some (b, h))
+      | none => .panic
+  | _ => .ok none
+
+def storeTailOptE (m : MemE) (aaw : Nat) : Res (Option (Nat × Expr)) :=
+  if aaw ≥ U64 then pure none else storeTailE m aaw
+
+def rehomeE (m : MemE) (w : Option (Nat × Expr)) : MemE :=
+  match w with
+  | some (a, v) => storeNoBackrefE m a v
+  | none => m
+
+/-- `Memory::<il::Expression>::store` -/
+def storeE (m : MemE) (a : Nat) (v : Expr) : Res MemE :=
+  if v.bits % 8 ≠ 0 ∨ v.bits = 0 then .err .other
+  else if a + (v.bits / 8 - 1) ≥ U64 then .err .other
+  else do
+    let aaw := a + v.bits / 8
+    let tail ← storeTailOptE m aaw
+    let m1 := rehomeE m tail
+    let head ← storeHeadE m1 a
+    let m2 := rehomeE m1 head
+    pure (storeNoBackrefE m2 a v)
+
+def permissionsE (m : MemE) (a : Nat) : Option Nat :=
+  match AList.get m.pages (pageOf a) with
+  | some (some p) => some p
+  | _ =>
+    match m.backing with
+    | some b => b.permissions a
+    | none => none
+
+def setPermissionsE (m : MemE) (a len p : Nat) : MemE :=
+  let limit := if a + len < U64 then a + len else U64 - 1
+  { m with pages := setPermLoop m.pages p limit (pageOf a) (len / PAGE_SIZE + 2) }
+
+/-- `impl PartialEq for Memory<il::Expression>`: cells are compared structurally (expression trees) -/
+def eqE (m₁ m₂ : MemE) : Bool :=
+  if alistEq m₁.pages m₂.pages && alistEq m₁.cells m₂.cells && decide (m₁.endian = m₂.endian) then
+    match m₁.backing, m₂.backing with
+    | some b₁, some b₂ => decide (b₁ = b₂)
+    | none, none => true
+    | _, _ => false
+  else false
+
 /-! ### the specification: a byte array -/
 
 abbrev Bytes := Nat → Option UInt8
